@@ -226,7 +226,16 @@ class SetEncoder(encoder.SequenceEncoder):
             if namedType:
                 options.update(ifNotEmpty=namedType.isOptional)
 
-            chunk = encodeFun(comp, compType, **options)
+            compOptions = options
+
+            if (namedType and namedType.openType and
+                    namedType.asn1Object.typeId in (
+                        univ.SetOf.typeId, univ.SequenceOf.typeId)):
+                # elements of an open SET OF/SEQUENCE OF get wrapped one by one
+                compOptions = dict(
+                    options, wrapType=namedType.asn1Object.componentType)
+
+            chunk = encodeFun(comp, compType, **compOptions)
 
             # wrap open type blob if needed
             if namedType and namedType.openType:
